@@ -824,6 +824,22 @@ def line_fit_wtls(x,y,u_x,u_y,a0_b0=None,r_xy=None,dof=None,label=None):
     return LineFitWTLS(a,b,ssr,N)
     
 #-----------------------------------------------------------------------------------------
+def _clip_r(r):
+    """Return ``r`` with rounding error just outside [-1,1] removed
+
+    A sample correlation coefficient evaluated for exactly collinear
+    data can come out as 1.0000000000000002, which
+    ``set_correlation_real`` would reject. Values further from
+    the interval than rounding can explain are returned unchanged
+    (and will still be rejected).
+
+    """
+    if 1.0 < abs(r) < 1.0 + 1E-10:
+        return 1.0 if r > 0.0 else -1.0
+    else:
+        return r
+
+#-----------------------------------------------------------------------------------------
 def estimate_digitized(seq,delta,label=None,truncate=False):
     """
     Return an uncertain number for the mean of digitized data in ``seq``
@@ -1338,7 +1354,7 @@ def multi_estimate_real(seq_of_seq,labels=None):
         for j in xrange(M-1-i):
             cv_ij = cv[i][j]
             if cv_ij != 0.0:
-                r =  cv_ij / (u_i*u[i+j+1])
+                r = _clip_r( cv_ij / (u_i*u[i+j+1]) )
                 un_j = rtn[i+j+1]
                 set_correlation_real(un_i,un_j,r)
 
@@ -1443,7 +1459,7 @@ def multi_estimate_complex(seq_of_seq,labels=None):
                 d_i*d_j for d_i,d_j in izip(x_i,x_j)
             )/N_N_1
             if cv != 0.0:
-                r = cv/(x_u[i]*x_u[j]) 
+                r = _clip_r( cv/(x_u[i]*x_u[j]) )
                 set_correlation_real(un_i,x_influences[j],r)
 
     complex_ensemble( rtn, N_1 )
